@@ -28,11 +28,13 @@ Frame(buf) == FrameR(buf, <<>>)
 RECURSIVE ScanLen(_, _)
 ScanLen(buf, lenLen) == IF lenLen < Len(buf) /\ buf[lenLen + 1] >= 128 THEN ScanLen(buf, lenLen + 1) ELSE lenLen
 \* pdu.decodeLength on buffer[1:]: no bound on the number of digits
+\* (Python integers do not overflow: beyond the fourth digit the value is modelled as "larger than any buffer"
+\*  unless the digit is 0)
 RECURSIVE DecodeLengthImpl(_, _, _, _)
 DecodeLengthImpl(buf, i, mult, acc) ==
   IF i > Len(buf) THEN acc
-  ELSE LET v == acc + (buf[i] % 128) * mult IN
-       IF buf[i] < 128 THEN v ELSE DecodeLengthImpl(buf, i + 1, mult * 128, v)
+  ELSE LET v == IF mult > 2097152 THEN (IF buf[i] % 128 = 0 THEN acc ELSE 1073741824) ELSE acc + (buf[i] % 128) * mult IN
+       IF buf[i] < 128 THEN v ELSE DecodeLengthImpl(buf, i + 1, IF mult > 2097152 THEN mult ELSE mult * 128, v)
 RECURSIVE FrameImplR(_, _)
 FrameImplR(buf, acc) ==
   IF Len(buf) < 2 THEN [pkts |-> acc, rest |-> buf]
